@@ -270,6 +270,80 @@ def check_state_ctor_threshold(ctx, F):
 
 
 ORD = ('Lt', 'Le', 'Gt', 'Ge')
+UNSIGNED = ('u8', 'u16', 'u32', 'u64', 'u128', 'usize')
+
+
+def _impl_preds(F, b):
+    for imp in F.impls:
+        if imp.get('path') == b.impl:
+            return imp.get('preds') or []
+    return []
+
+
+def check_sign_safe_doubling(ctx, F):
+    """A search step that is doubled under the overflow guard `step << 1 != 0` stays positive only for unsigned types: for
+    a signed type 2^(N-2) << 1 is -2^(N-1), non-zero and negative, and a negative step defeats the wrap check of the search
+    (`new_symbol >= symbol`), which then halves the step forever (arithmetic shift of a negative number never reaches 0) or
+    overflows.  Rule: where a loop-carried integer of a type that may be signed (a type parameter without an `Unsigned`
+    bound) is replaced by its double, the dominating guard orders the doubled value against zero; `!= 0` alone is refuted."""
+    n = 0
+    for b in F.bodies:
+        if b.promoted is not None or b.name != 'quantile_function' or b.dk != 'AssocFn' or '::tests::' in b.defpath or not b.defpath.startswith('<'):
+            continue
+        try:
+            ev, paths = rules.evaluate(b)
+        except sym.TooManyPaths:
+            paths = None
+        if not paths:
+            continue
+        preds_txt = _impl_preds(F, b)
+        sites = {}
+        for r in paths:
+            # values a local takes: at the end of the path, or when an inner loop is entered (the doubling is followed by one)
+            cands = list(r.store.items())
+            for e in r.events:
+                if e['kind'] == 'loop_enter':
+                    cands += list(e['pre'].items())
+            for k, v in cands:
+                if not (len(k) == 1 and isinstance(v, tuple) and v and v[0] == 'bin' and v[1] == 'Shl' and v[3] == ('int', 1)):
+                    continue
+                x = v[2]
+                if not (isinstance(x, tuple) and x and x[0] == 'loop' and x[-1] == k):
+                    continue
+                ty = F.ty_s(ev.body.local_ty(k[0]))
+                if ty in UNSIGNED or any(p.startswith(ty + ': ') and p.endswith('Unsigned') for p in preds_txt):
+                    continue
+                ordered = ne_only = False
+                for t, val, _ in r.preds:
+                    if not (t[0] == 'bin' and v in (t[2], t[3])):
+                        continue
+                    other = t[3] if t[2] == v else t[2]
+                    if not pow2._is_zero(other):
+                        continue
+                    op = t[1].split('.')[0]
+                    if op in ('Ne', 'Eq'):
+                        ne_only = True
+                    if op in ORD:
+                        # zero < doubled (true)  /  doubled <= zero (false) ...
+                        lo, hi = (t[2], t[3]) if op in ('Lt', 'Le') else (t[3], t[2])
+                        if (lo == other and hi == v and val) or (lo == v and hi == other and not val):
+                            ordered = True
+                key = (k, ty)
+                cur = sites.get(key, (True, False))
+                sites[key] = (cur[0] and ordered, cur[1] or (ne_only and not ordered))
+        for (k, ty), (ok, ne_only) in sorted(sites.items()):
+            n += 1
+            ctx.touch(b)
+            okey = 'R2/sign-safe-doubling/%s/_%d' % (b.defpath, k[0])
+            role = 'a doubled search step of a possibly signed type is kept positive'
+            if ok:
+                ctx.ok('R2', role, b.defpath, 'every doubling of the %s-typed step is guarded by `0 < step << 1`' % ty, key=okey)
+            elif ne_only:
+                ctx.bad('R2', role, b.defpath, 'the step (type parameter `%s`, no `Unsigned` bound) is doubled under the guard `step << 1 != 0` only: for a signed symbol type such as i8 or i16 the doubled value can be negative (64i8 << 1 == -128), '
+                        'after which the search never terminates or overflows' % ty, key=okey, loc=rules.loc(b))
+            else:
+                ctx.unresolved('R2', role, b.defpath, 'doubling of a %s-typed loop variable without a recognised guard' % ty, key=okey)
+    ctx.extra['doubling_sites'] = n
 
 
 def check_wrapping_search_steps(ctx, F):
@@ -347,6 +421,7 @@ def run(ctx):
     F = ctx.F
     check_coders(ctx, F)
     check_wrapping_search_steps(ctx, F)
+    check_sign_safe_doubling(ctx, F)
     check_models(ctx, F)
     check_state_ctor_threshold(ctx, F)
     import props.C05 as c05
